@@ -3,11 +3,14 @@
 (* user relies on stated as the "ideal signature functionality":                      *)
 (*   - a key object has a LINEAGE (the 32-byte seed it descends from, or "foreign"    *)
 (*     for bytes the library never produced), a parameter set and a provenance;       *)
-(*   - signing with a key of lineage x on (M, ctx, mode) with drawn randomness r      *)
-(*     ISSUES one signature string, a function of exactly (set, x, M, ctx, mode, r);  *)
-(*   - verification returns TRUE iff the context is at most 255 bytes long and the    *)
-(*     exact tuple (signature string, set, lineage of the public key, M, ctx, mode)   *)
-(*     was issued;                                                                    *)
+(*   - (M, ctx, mode) determine the formatted message M' (Algorithms 2-5), and the    *)
+(*     map is injective (MC_Format); the internal interface takes M' directly;        *)
+(*   - signing with a key of lineage x on M' with randomness r ISSUES one signature   *)
+(*     string, a function of exactly (set, x, M', r) -- the SAME function for the     *)
+(*     external and the internal interface;                                           *)
+(*   - verification returns TRUE iff the context is at most 255 bytes long (external  *)
+(*     interface) and the exact tuple (signature string, set, lineage of the public   *)
+(*     key, M') was issued, through either interface;                                 *)
 (*   - serialisation is a function of (kind, set, lineage) and is injective;          *)
 (*     deserialisation, derivation and cloning preserve lineage;                      *)
 (*   - randomness is requested once, 32 bytes, through the fallible interface, and    *)
@@ -21,11 +24,12 @@
 EXTENDS Integers, Sequences, FiniteSets, TLC
 
 VARIABLES keys,    \* handle -> [kind, set, lin, prov, alive, mem]
-          issued,  \* set of << sig, set, lin, msg, ctx, mode >>
-          sigof,   \* << set, lin, msg, ctx, mode, draw >> -> sig      (determinism)
+          issued,  \* set of << sig, set, lin, mp >>                    (mp: identity of the formatted message M')
+          sigof,   \* << set, lin, mp, draw >> -> sig                   (determinism, one function for both interfaces)
           ser,     \* << kind, set, lin >> -> bytes                     (canonical serialisation)
+          fmt,     \* << mode, ctx, msg >> -> mp                        (message formatting: a function, injective)
           out      \* last observable result (hidden from the fingerprint in MC by a VIEW)
-avars == << keys, issued, sigof, ser, out >>
+avars == << keys, issued, sigof, ser, fmt, out >>
 
 Sets  == {44, 65, 87}
 AModes == {"pure", "SHA256", "SHA512", "SHAKE128"}
@@ -43,7 +47,7 @@ Foreign(b) == << "foreign", b >>      \* lineage of a key deserialised from byte
 NewKey(kind, set, lin, prov) == [kind |-> kind, set |-> set, lin |-> lin, prov |-> prov, alive |-> TRUE, mem |-> "live"]
 Ext(f, k, v) == [x \in DOMAIN f \cup {k} |-> IF x = k THEN v ELSE f[x]]
 
-AInit == /\ keys = << >> /\ issued = {} /\ sigof = << >> /\ ser = << >>
+AInit == /\ keys = << >> /\ issued = {} /\ sigof = << >> /\ ser = << >> /\ fmt = << >>
          /\ out = [op |-> "init"]
 
 \* ------------------------------------------------------------------ key generation
@@ -52,7 +56,7 @@ KeyGenSeed(set, seed, hpk, hsk) ==
   /\ hpk \notin Handles /\ hsk \notin Handles /\ hpk # hsk
   /\ keys' = Ext(Ext(keys, hpk, NewKey("pk", set, Seeded(seed), "generated")), hsk, NewKey("sk", set, Seeded(seed), "generated"))
   /\ out' = [op |-> "KeyGenSeed", ok |-> TRUE]
-  /\ UNCHANGED << issued, sigof, ser >>
+  /\ UNCHANGED << issued, sigof, ser, fmt >>
 \* Algorithm 1 with the caller's RNG: on a healthy RNG exactly the seeded function of the draw
 KeyGenRng(set, draw, fault, hpk, hsk) ==
   /\ hpk \notin Handles /\ hsk \notin Handles /\ hpk # hsk
@@ -61,35 +65,57 @@ KeyGenRng(set, draw, fault, hpk, hsk) ==
           /\ out' = [op |-> "KeyGenRng", ok |-> TRUE, rnglog |-> OneDraw]
      ELSE /\ keys' = keys
           /\ out' = [op |-> "KeyGenRng", ok |-> FALSE, rnglog |-> OneDraw]
-  /\ UNCHANGED << issued, sigof, ser >>
+  /\ UNCHANGED << issued, sigof, ser, fmt >>
 
-\* ------------------------------------------------------------------ signing (Algorithms 2, 4)
-SigKey(h, msg, ctx, mode, draw) == << keys[h].set, keys[h].lin, msg, ctx, mode, draw >>
-\* `sig` is the issued string; determinism and injectivity tie it to SigKey
-Sign(h, msg, ctx, ctxlen, mode, draw, fault, sig) ==
+\* ------------------------------------------------------------------ message formatting (Algorithms 2-5, first lines)
+\* `mp` is the identity of M' = FormatMsg(mode, ctx, M) as observed; the model requires it to be a function of the
+\* triple and injective (what MC_Format proves of the specification's FormatMsg).  Only contexts within the limit have an M'.
+FmtKey(mode, ctx, msg) == << mode, ctx, msg >>
+FmtOK(mode, ctx, msg, mp) ==
+  /\ FmtKey(mode, ctx, msg) \in DOMAIN fmt => fmt[FmtKey(mode, ctx, msg)] = mp
+  /\ \A k2 \in DOMAIN fmt : fmt[k2] = mp => k2 = FmtKey(mode, ctx, msg)
+FmtNote(mode, ctx, msg, mp) == fmt' = Ext(fmt, FmtKey(mode, ctx, msg), mp)
+
+\* ------------------------------------------------------------------ signing (Algorithms 2, 4, 7)
+SigKey(h, mp, draw) == << keys[h].set, keys[h].lin, mp, draw >>
+\* the deterministic core shared by both interfaces: `sig` is the issued string; determinism and injectivity tie it to SigKey
+Issue(h, mp, draw, sig) ==
+  LET k == SigKey(h, mp, draw) IN
+  /\ k \in DOMAIN sigof => sigof[k] = sig                          \* a function of (key, M', rnd) only
+  /\ \A k2 \in DOMAIN sigof : sigof[k2] = sig => k2 = k             \* and injective (else a SHAKE collision)
+  /\ sigof' = Ext(sigof, k, sig)
+  /\ issued' = issued \cup { << sig, keys[h].set, keys[h].lin, mp >> }
+Sign(h, msg, ctx, ctxlen, mode, mp, draw, fault, sig) ==
   /\ IsSk(h) /\ mode \in AModes
   /\ IF ctxlen > 255
-     THEN /\ out' = [op |-> "Sign", ok |-> FALSE, rnglog |-> NoDraw]       \* rejected before any randomness is drawn
-          /\ UNCHANGED << issued, sigof >>
-     ELSE IF fault # "none"
-     THEN /\ out' = [op |-> "Sign", ok |-> FALSE, rnglog |-> OneDraw]
-          /\ UNCHANGED << issued, sigof >>
-     ELSE LET k == SigKey(h, msg, ctx, mode, draw) IN
-          /\ k \in DOMAIN sigof => sigof[k] = sig                          \* a function of (key, M, ctx, mode, rnd) only
-          /\ \A k2 \in DOMAIN sigof : sigof[k2] = sig => k2 = k             \* and injective (else a SHAKE collision)
-          /\ sigof' = Ext(sigof, k, sig)
-          /\ issued' = issued \cup { << sig, keys[h].set, keys[h].lin, msg, ctx, mode >> }
-          /\ out' = [op |-> "Sign", ok |-> TRUE, rnglog |-> OneDraw]
+     THEN /\ out' = [op |-> "Sign", ok |-> FALSE, rnglog |-> NoDraw, ctxlen |-> ctxlen]  \* rejected before any randomness is drawn
+          /\ UNCHANGED << issued, sigof, fmt >>
+     ELSE /\ FmtOK(mode, ctx, msg, mp) /\ FmtNote(mode, ctx, msg, mp)
+          /\ IF fault # "none"
+             THEN /\ out' = [op |-> "Sign", ok |-> FALSE, rnglog |-> OneDraw, ctxlen |-> ctxlen]
+                  /\ UNCHANGED << issued, sigof >>
+             ELSE /\ Issue(h, mp, draw, sig)
+                  /\ out' = [op |-> "Sign", ok |-> TRUE, rnglog |-> OneDraw, ctxlen |-> ctxlen]
   /\ UNCHANGED << keys, ser >>
+\* Algorithm 7 through the internal interface: M' and rnd are given, nothing is drawn, no context rule
+SignInternal(h, mp, draw, sig) ==
+  /\ IsSk(h)
+  /\ Issue(h, mp, draw, sig)
+  /\ out' = [op |-> "SignInternal", ok |-> TRUE]
+  /\ UNCHANGED << keys, ser, fmt >>
 
-\* ------------------------------------------------------------------ verification (Algorithms 3, 5)
-Verdict(h, msg, ctx, ctxlen, mode, sig) ==
-  /\ ctxlen <= 255
-  /\ << sig, keys[h].set, keys[h].lin, msg, ctx, mode >> \in issued
-Verify(h, msg, ctx, ctxlen, mode, sig) ==
+\* ------------------------------------------------------------------ verification (Algorithms 3, 5, 8)
+VerdictMp(h, mp, sig) == << sig, keys[h].set, keys[h].lin, mp >> \in issued
+Verdict(h, ctxlen, mp, sig) == ctxlen <= 255 /\ VerdictMp(h, mp, sig)
+Verify(h, msg, ctx, ctxlen, mode, mp, sig) ==
   /\ IsPk(h) /\ mode \in AModes
-  /\ out' = [op |-> "Verify", res |-> Verdict(h, msg, ctx, ctxlen, mode, sig)]
+  /\ IF ctxlen > 255 THEN UNCHANGED fmt ELSE FmtOK(mode, ctx, msg, mp) /\ FmtNote(mode, ctx, msg, mp)
+  /\ out' = [op |-> "Verify", res |-> Verdict(h, ctxlen, mp, sig)]
   /\ UNCHANGED << keys, issued, sigof, ser >>
+VerifyInternal(h, mp, sig) ==
+  /\ IsPk(h)
+  /\ out' = [op |-> "VerifyInternal", res |-> VerdictMp(h, mp, sig)]
+  /\ UNCHANGED << keys, issued, sigof, ser, fmt >>
 
 \* ------------------------------------------------------------------ serialisation
 SerKey(h) == << keys[h].kind, keys[h].set, keys[h].lin >>
@@ -100,7 +126,7 @@ Serialise(h, bytes) ==
   /\ \A k2 \in DOMAIN ser : ser[k2] = bytes => k2 = SerKey(h)               \* injective
   /\ ser' = Ext(ser, SerKey(h), bytes)
   /\ out' = [op |-> "Serialise", bytes |-> bytes]
-  /\ UNCHANGED << keys, issued, sigof >>
+  /\ UNCHANGED << keys, issued, sigof, fmt >>
 \* lineage of a byte string: the key it was serialised from, else foreign
 LineageOf(kind, set, bytes) ==
   IF \E k \in DOMAIN ser : ser[k] = bytes /\ k[1] = kind /\ k[2] = set
@@ -113,36 +139,39 @@ Deserialise(kind, set, bytes, accept, h) ==
   /\ IF accept THEN keys' = Ext(keys, h, NewKey(kind, set, LineageOf(kind, set, bytes), "deserialised"))
                ELSE keys' = keys
   /\ out' = [op |-> "Deserialise", ok |-> accept]
-  /\ UNCHANGED << issued, sigof, ser >>
+  /\ UNCHANGED << issued, sigof, ser, fmt >>
 Derive(hsk, hpk) ==
   /\ IsSk(hsk) /\ hpk \notin Handles
   /\ keys' = Ext(keys, hpk, NewKey("pk", keys[hsk].set, keys[hsk].lin, "derived"))
   /\ out' = [op |-> "Derive"]
-  /\ UNCHANGED << issued, sigof, ser >>
+  /\ UNCHANGED << issued, sigof, ser, fmt >>
 Clone(h, h2) ==
   /\ Live(h) /\ h2 \notin Handles
   /\ keys' = Ext(keys, h2, [keys[h] EXCEPT !.prov = "cloned"])
   /\ out' = [op |-> "Clone"]
-  /\ UNCHANGED << issued, sigof, ser >>
+  /\ UNCHANGED << issued, sigof, ser, fmt >>
 Drop(h) ==
   /\ Live(h)
   /\ keys' = [keys EXCEPT ![h].alive = FALSE, ![h].mem = "zero"]
   /\ out' = [op |-> "Drop", nonzero_after |-> 0]
-  /\ UNCHANGED << issued, sigof, ser >>
+  /\ UNCHANGED << issued, sigof, ser, fmt >>
 
 \* ------------------------------------------------------------------ user-facing guarantees
 TypeOK ==
   /\ \A h \in Handles : keys[h].kind \in {"pk", "sk"} /\ keys[h].set \in Sets /\ keys[h].alive \in BOOLEAN
-  /\ \A t \in issued : t[2] \in Sets /\ t[6] \in AModes
+  /\ \A t \in issued : t[2] \in Sets
+  /\ \A k \in DOMAIN fmt : k[1] \in AModes
 \* C16: a dropped key holds no key material
 DroppedIsZero == \A h \in Handles : ~keys[h].alive => keys[h].mem = "zero"
 \* C01 / C11: whatever the provenance of the two key objects, an issued tuple verifies under every
 \* live public key of the signer's lineage and set
 HonestVerifies ==
   \A t \in issued : \A h \in Handles :
-     (IsPk(h) /\ keys[h].set = t[2] /\ keys[h].lin = t[3]) => Verdict(h, t[4], t[5], 0, t[6], t[1])
-\* C03-lite: one signature string per (set, lineage, M, ctx, mode, rnd)
+     (IsPk(h) /\ keys[h].set = t[2] /\ keys[h].lin = t[3]) => Verdict(h, 0, t[4], t[1])
+\* C03-lite: one signature string per (set, lineage, M', rnd)
 SigFunctional == \A k1, k2 \in DOMAIN sigof : sigof[k1] = sigof[k2] => k1 = k2
 \* C09: one serialisation per (kind, set, lineage), injective
 SerInjective == \A k1, k2 \in DOMAIN ser : ser[k1] = ser[k2] => k1 = k2
+\* C06: one formatted message per (mode, ctx, M), injective
+FmtInjective == \A k1, k2 \in DOMAIN fmt : fmt[k1] = fmt[k2] => k1 = k2
 =======================================================================
